@@ -74,6 +74,7 @@ TASKS = {
     'ok': tasks.work, 'raise': tasks.work_raise, 'base': tasks.work_base,
     'unpicklable': tasks.work_unpicklable, 'catch': tasks.work_catch_soft,
     'inexc': tasks.work_in_except, 'convert': tasks.work_convert,
+    'swallow': tasks.work_swallow,
     'unpicklable_os': tasks.work_unpicklable_os,
     'unpicklable_value': tasks.work_unpicklable_value,
 }
@@ -364,7 +365,7 @@ def spec_check(cfg, r, inject):
     # ---- results describe what the task did
     for (job, ok) in order:
         name = script[job - 10]
-        exp_ok = name in ('ok', 'catch', 'inexc', 'convert')
+        exp_ok = name in ('ok', 'catch', 'inexc', 'convert', 'swallow')
         soft_hit = sig == SOFT
         if ok != exp_ok and not soft_hit and sig is None:
             return 'job %d (%s) reported success=%r' % (job, name, ok)
@@ -510,6 +511,10 @@ def soft_check(cfg, r, inject):
         if ok or val.type is not tasks.TaskFailed:
             return ('task wraps whatever interrupts it, but the soft limit '
                     'surfaced as %r' % ((ok, getattr(val, 'type', val)),))
+    elif name == 'swallow':
+        if not ok or val != ('swallowed', k):
+            return ('task swallowed the soft limit and returned a value, but '
+                    'the result delivered is %r' % ((ok, val),))
     elif name == 'catch':
         if not ok or val != ('caught-soft', k):
             return ('task caught the soft limit and returned a value, but the '
@@ -548,7 +553,7 @@ CHECKS = {int(signal.SIGTERM): term_check, int(SOFT): soft_check,
 def configs(tier):
     T = tier == 'thorough'
     names = ['ok', 'raise', 'base', 'unpicklable', 'catch', 'inexc',
-             'convert']
+             'convert', 'swallow']
     out = []
     maxlen = 2 if not T else 3
     for n in range(1, maxlen + 1):
